@@ -335,19 +335,38 @@ def getslice(interp, obj, lo, hi):
             xt = interp.int_term(x)
             xt = z3.If(xt < 0, z3.If(xt + ln < 0, z3.IntVal(0), xt + ln), z3.If(xt > ln, ln, xt))
             return xt
-        # structural case: text is a concatenation and the slice boundary falls between two pieces
+        # structural case: text is a concatenation and the slice boundaries fall between pieces
         from .strings import flatten_concat, concat
         parts = flatten_concat(simp(t))
-        if len(parts) >= 2 and (lo is None or hi is None):
-            bound = hi if lo is None else lo
-            if interp.tag(bound) in ("vint", "vbool"):
-                bt = interp.int_term(bound)
+        if len(parts) >= 2:
+            def cut_of(bound, default):
+                """index into parts where the boundary falls, or None"""
+                if bound is None:
+                    return default
+                if interp.tag(bound) not in ("vint", "vbool"):
+                    return None
+                bt = simp(interp.int_term(bound))
+                neg = z3.is_int_value(bt) and bt.as_long() < 0
+                if neg:
+                    acc = z3.IntVal(0)
+                    for cut in range(len(parts) - 1, 0, -1):
+                        acc = simp(acc + z3.Length(parts[cut]))
+                        if interp.ctx.entails(-bt == acc):
+                            return cut
+                    return None
+                if z3.is_int_value(bt) and bt.as_long() == 0:
+                    return 0
                 acc = z3.IntVal(0)
                 for cut in range(1, len(parts)):
                     acc = simp(acc + z3.Length(parts[cut - 1]))
                     if interp.ctx.entails(z3.And(bt == acc, bt >= 0)):
-                        piece = parts[:cut] if lo is None else parts[cut:]
-                        return interp.mk(tg, simp(concat(piece)))
+                        return cut
+                return None
+            if lo is not None or hi is not None:
+                ca = cut_of(lo, 0)
+                cb = cut_of(hi, len(parts))
+                if ca is not None and cb is not None and ca <= cb:
+                    return interp.mk(tg, simp(concat(parts[ca:cb])))
         a = norm(lo, z3.IntVal(0))
         b = norm(hi, ln)
         r = z3.SubString(t, a, z3.If(b - a < 0, z3.IntVal(0), b - a))
@@ -707,7 +726,12 @@ def b_len(interp, v):
         return b_len(interp, v.d)
     tg = interp.tag(v)
     if tg in ("vstr", "vbytes"):
-        return interp.mk("vint", z3.Length(interp.text_term(v)))
+        ln = z3.Length(interp.text_term(v))
+        key = ("lenbound", tid(ln))
+        if key not in interp.ctx.ghost:
+            interp.ctx.ghost[key] = True
+            interp.ctx.axiom(ln < 2 ** 31, "octet/character strings handled by one call are shorter than 2^31 (assumption: they fit in memory)")
+        return interp.mk("vint", ln)
     if isinstance(v, HObj):
         f = interp.class_lookup(v.cls, "__len__")
         if isinstance(f, types.FunctionType):
